@@ -234,13 +234,39 @@ def same(x, y):
     return x == x and abs(x - y) <= REL * max(abs(x), abs(y))
 
 
-def compare(exp, got):
-    """First clause on which the real projection differs from the spec's (None if none)."""
+def consistent(got):
+    """Between compiles the statement only asks that the views stay mutually consistent: name, value and
+    prior of every reported parameter are in one space and the reported value is the model's value."""
+    for g in got['fit']:
+        if g['nsp'] != g['psp']:
+            return 'fit_names', '%s: name in %s space, prior in %s space' % (g['n'], g['nsp'], g['psp'])
+        x = got['val'].get(g['n'])
+        if x is not None:
+            want = math.log10(x) if g['psp'] == 'log' and x > 0 else x
+            if not same(g['v'], want):
+                return 'fit_values', '%s: reported %r, model value %r in %s space is %r' % (g['n'], g['v'], x, g['psp'], want)
+    return None, ''
+
+
+def compare(exp, got, full=True):
+    """First clause on which the real projection differs from the spec's (None if none).
+    full: the call is compile_params / update_model / write_back, after which the reported set-up must be
+    the specification's; after any other call only errors, values and mutual consistency are compared."""
     if bool(exp['err']) != got['err']:
         return ('unknown_is_error' if exp['err'] else 'known_is_accepted'), \
             'expected raised=%s got raised=%s' % (exp['err'], got['err'])
     if not got['ok']:
         return 'views_readable', got['why']
+    if not full:
+        bad, detail = consistent(got)
+        if bad:
+            return bad, detail
+        for p in PARAMS:
+            if not same(got['val'][p], p10(exp['val'][p])):
+                return 'values', '%s: expected %r got %r' % (p, p10(exp['val'][p]), got['val'][p])
+        if not got['others_same']:
+            return 'other_parameters_untouched', 'a parameter outside the fixture changed'
+        return None, ''
     ef, gf = exp['fit'], got['fit']
     if [(e['n'], e['nsp']) for e in ef] != [(g['n'], g['nsp']) for g in gf]:
         return 'fit_names', 'expected %r got %r' % ([(e['n'], e['nsp']) for e in ef], [(g['n'], g['nsp']) for g in gf])
